@@ -494,7 +494,12 @@ def rule_select_targets(run):
     c03.rule_select_default(run)   # std.select with tuple-valued alternatives: element nr of every alternative AND of the default goes to target nr
 
 
-RULES = [rule_fold, rule_layout, rule_first, rule_width, rule_mask, rule_crc, rule_choose_first, rule_views, rule_tracer, rule_replacements, rule_select_python, rule_select_targets]
+def rule_slice_direction(run):
+    from . import c06
+    c06.rule_slice_direction(run)   # batched / rotate helpers produce one-element slices: they must be emitted `(k downto k)`
+
+
+RULES = [rule_fold, rule_layout, rule_first, rule_width, rule_mask, rule_crc, rule_choose_first, rule_views, rule_tracer, rule_replacements, rule_select_python, rule_select_targets, rule_slice_direction]
 LEVEL = "other"
 EXPLANATION = (
     "The std helpers are interpreted abstractly (sa/absint.py walks their ASTs; cohdl is never imported) over symbolic "
